@@ -39,6 +39,8 @@ def _case(draw):
         # how the instance-level state came about: constructor keywords, or an instance that owns per-instance Parameter
         # objects and follows class defaults reassigned afterwards
         "history": draw(st.sampled_from(["ctor", "ctor", "follow_class"])),
+        # the objects are container-like and empty, hence falsy
+        "falsy": draw(st.sampled_from([False, False, False, True])),
     }
 
 
@@ -97,7 +99,9 @@ def _scribble(v):
 def execute(case):
     res = Result()
     specs = [jw.dec_spec(e) for e in case["params"]]
-    K = jw.build_class(specs)
+    K = jw.build_class(specs, extra_ns={"__len__": lambda self: 0} if case.get("falsy") else None)
+    if case.get("falsy"):
+        res.label("falsy_instances")
     names = [f"p{i}" for i in range(len(specs))]
     marks = set()
     if case["level"] == "class":
